@@ -5,7 +5,7 @@ PATCH="$1"; PROP="$2"; shift 2
 R=$(mktemp -d /tmp/vsim-mut-XXXXXX)
 rsync -a --exclude .git /repo/ "$R"/
 (cd "$R" && patch -p1 -s < "$PATCH") || { echo "patch failed"; rm -rf "$R"; exit 3; }
-OUT=$(VERIF_REPO="$R" timeout 1800 /venv/bin/python /verif/check "$PROP" "$@" 2>&1 | grep -v "conda\|WARNING")
+export VSIM_OUT="$R/.vsim-out"; OUT=$(VERIF_REPO="$R" timeout 1800 /venv/bin/python /verif/check "$PROP" "$@" 2>&1 | grep -v "conda\|WARNING")
 F=$(echo "$OUT" | grep "^VIOLATION" | head -1 | sed 's/.*replay=//')
 echo "first replay file: $F"
 if [ -n "$F" ]; then
